@@ -43,6 +43,12 @@ theorem vitalOfNet_lift (a pid : Nat) (evs : List Event) :
 theorem lift_vital (a pid : Nat) (o : Conn6.Out) : vitalOfNet (liftOut a pid o).events = NetSim.vitalPayloads o.events :=
   vitalOfNet_lift a pid o.events
 
+theorem map_pkt_stamp {P : Type} (n dd : Nat) (l : List P) :
+    List.map (fun x : Sent P => x.pkt) (List.map (fun p => ({ pkt := p, nStamp := n, dStamp := dd } : Sent P)) l) = l := by
+  induction l with
+  | nil => rfl
+  | cons x xs ih => simp [ih]
+
 theorem lift_sent (a pid : Nat) (o : Conn6.Out) : (liftOut a pid o).sent.map (·.2) = o.sent := by
   simp only [liftOut, List.map_map]
   induction o.sent with
@@ -310,5 +316,134 @@ theorem wireRead_connect {tl : Bool} {p : Packet} {alt : P6.Alt} {ack : Nat} {to
     | keepAlive => cases tl <;> simp [P6.wireRead, P6.strip] at h
     | connectAccept => cases tl <;> simp [P6.wireRead, P6.strip] at h
     | accept => cases tl <;> simp [P6.wireRead, P6.strip] at h
+
+theorem created_none {tl : Bool} {addr : Nat} {w : NW tl} {net1 : Net}
+    (h : slot net1.peers addr = none) : created addr w net1 = false := by
+  simp [created, h]
+
+theorem created_of_some {tl : Bool} {addr : Nat} {w : NW tl} {net1 : Net} {x : Nat × Peer}
+    (h : slot w.net.peers addr = some x) : created addr w net1 = false := by
+  simp [created, h]
+
+theorem coup_toNet {tl : Bool} {addr : Nat} {w w' : NW tl} {i : Nat} {d : List Nat} {alt : P6.Alt}
+    (hc : Coup addr w) (h : nwStep addr w (.toNet i d alt) = some w') : Coup addr w' := by
+  obtain ⟨net1, r, o, g1, hr, hcb, hg, hw⟩ := nwStep_some h
+  simp only [realStep] at hr
+  cases hdg : w.g.a.out[i]? with
+  | none => simp [hdg] at hr
+  | some dg =>
+    simp only [hdg] at hr
+    cases hfeed : Net.feed ⟨w.g.now, d⟩ w.net addr (P6.wireRead tl dg.pkt alt) with
+    | error e => simp [hfeed] at hr
+    | ok v =>
+      simp only [hfeed, Option.some.injEq] at hr
+      subst hr
+      obtain ⟨hi1, _, _, href⟩ := feed_sim hc.pinv hfeed
+      have hsub : subOf addr w.net r (.toNet i d alt) = [] := rfl
+      cases hs : slot w.net.peers addr with
+      | none =>
+        -- stateless: nothing for the ghost to do
+        simp only [ghostStep, ghostMove, hs, Option.some.injEq] at hg
+        subst hg
+        simp only [refStep, hs] at href
+        obtain ⟨hsent, hvit, hslot⟩ := refStateless_shape href
+        rw [hw]
+        rcases hslot with hsame | ⟨_, ack, tok, pid, hrd, hnew⟩
+        · have hcr : created addr w net1 = false := created_none hsame
+          simp only [hcr, Bool.or_false, Bool.false_eq_true, if_false, hsent, hvit, hsub, List.map_nil,
+            List.append_nil]
+          exact { pinv := hi1
+                  conn := by intro pid p h'; rw [hsame] at h'; cases h'
+                  fresh := fun hb => ⟨hsame, (hc.fresh hb).2⟩
+                  pend := by intro pid p h'; rw [hsame] at h'; cases h'
+                  canon := hc.canon, out := hc.out, vital := hc.vital, sub := hc.sub }
+        · have hcr : created addr w net1 = true := by simp [created, hs, hnew]
+          have hborn : w.born = false := by simpa [hcr] using hcb
+          simp only [hcr, Bool.or_true, if_true, hsent, hvit, hsub, List.map_nil, List.append_nil, reqOf]
+          exact { pinv := hi1
+                  conn := by
+                    intro pid' p h'
+                    rw [hnew] at h'
+                    simp only [Option.some.injEq, Prod.mk.injEq] at h'
+                    rw [← h'.2]
+                    exact ⟨(hc.fresh hborn).2.symm, rfl⟩
+                  fresh := by intro hb; cases hb
+                  pend := by
+                    intro pid' p h' _
+                    rw [hnew] at h'
+                    simp only [Option.some.injEq, Prod.mk.injEq] at h'
+                    rw [← h'.2]
+                    refine ⟨i, alt, dg, rfl, hdg, ?_⟩
+                    rw [hrd, wireRead_connect hrd (hc.canon dg (List.mem_of_getElem? hdg))]
+                    rfl
+                  canon := hc.canon, out := hc.out, vital := hc.vital, sub := hc.sub }
+      | some x =>
+        obtain ⟨pid, p⟩ := x
+        have hcr : created addr w net1 = false := created_of_some hs
+        obtain ⟨hpc, hborn⟩ := hc.conn pid p hs
+        by_cases hu : p.conn.state = .unconnected
+        · -- pending acceptance: the endpoint ignores it, so does the ghost
+          simp only [ghostStep, ghostMove, hs, hu, if_true, Option.some.injEq] at hg
+          subst hg
+          simp only [refStep, hs, hu, if_true] at href
+          obtain ⟨hsent, hvit, hslot⟩ := refStateless_shape href
+          have hsame : slot net1.peers addr = some (pid, p) := by
+            rcases hslot with hsame | ⟨hf, _⟩
+            · exact hsame
+            · cases hf
+          rw [hw]
+          simp only [hcr, Bool.or_false, Bool.false_eq_true, if_false, hsent, hvit, hsub, List.map_nil,
+            List.append_nil]
+          exact { pinv := hi1
+                  conn := by intro pid' p' h'; rw [hsame] at h'; cases h'; exact ⟨hpc, hborn⟩
+                  fresh := by intro hb; rw [hborn] at hb; cases hb
+                  pend := by intro pid' p' h' hu'; rw [hsame] at h'; cases h'; exact hc.pend pid p hs hu
+                  canon := hc.canon, out := hc.out, vital := hc.vital, sub := hc.sub }
+        · -- a live connection: the ghost's `b` receives the same datagram
+          simp only [refStep, hs, hu, if_false] at href
+          cases hcf : Conn6.feed ⟨w.g.now, d⟩ p.conn (P6.wireRead tl dg.pkt alt) with
+          | error e => simp [hcf] at href
+          | ok cv =>
+            obtain ⟨c, o'⟩ := cv
+            simp only [hcf] at href
+            cases hsd : slotOnDisconnect (some (pid, { p with conn := c })) o'.events with
+            | error e => simp [hsd] at href
+            | ok s1 =>
+              simp only [hsd, Except.ok.injEq, Prod.mk.injEq] at href
+              obtain ⟨hslot1, _, hofor⟩ := href
+              simp only [ghostStep, ghostMove, hs, hu, if_false, NetSim.step, World.get, Side.other, hdg] at hg
+              have hrecv : (proto6 tl).recv w.g.now d w.g.b.conn dg.pkt alt =
+                  .ok { conn := c, sent := o'.sent, events := o'.events } := by
+                show P6.recv tl w.g.now d w.g.b.conn dg.pkt alt = _
+                simp only [P6.recv, ← hpc, hcf]
+                rfl
+              simp only [hrecv, Option.some.injEq] at hg
+              subst hg
+              rw [hw, ← hofor]
+              simp only [hcr, Bool.or_false, Bool.false_eq_true, if_false, hsub, List.append_nil, lift_sent,
+                lift_vital]
+              have hnu := nu_feed hcf hu
+              exact { pinv := hi1
+                      conn := by
+                        intro pid' p' h'
+                        rw [← hslot1] at h'
+                        rcases slotOnDisconnect_cases hsd with h0 | h0
+                        · rw [h0] at h'; cases h'
+                        · rw [h0] at h'; cases h'; exact ⟨rfl, hborn⟩
+                      fresh := by intro hb; rw [hborn] at hb; cases hb
+                      pend := by
+                        intro pid' p' h' hu'
+                        rw [← hslot1] at h'
+                        rcases slotOnDisconnect_cases hsd with h0 | h0
+                        · rw [h0] at h'; cases h'
+                        · rw [h0] at h'; cases h'; exact absurd hu' hnu
+                      canon := hc.canon
+                      out := by
+                        simp only [World.set, End.book, hc.out, List.map_append]
+                        exact congrArg (List.map (fun x => x.pkt) w.g.b.out ++ ·)
+                          (map_pkt_stamp (P := (proto6 tl).Packet) _ _ _).symm
+                      vital := by
+                        simp [World.set, End.book, End.deliveredVital, vp_append, hc.vital]
+                      sub := by simp [World.set, End.book, hc.sub] }
 
 end Tw.NetC01
